@@ -429,6 +429,28 @@ pub async fn run_case(backend: &str, seed: u64, rep: &mut Report, ops_out: &mut 
         let others: Vec<Vec<RecD>> = case.mirror.clone();
         let kind = rng.below(100);
         let snap = snapshot(&case).await;
+        // a FAILING append (file-system logs): the file is out of reach for one call.  Storage and tree must stay as
+        // they were, and nothing of the failed call may surface in a later append (the checks after every operation
+        // compare the tree with what is stored and with a re-opened log)
+        let fs_path: Option<std::path::PathBuf> = match &case.descs[o] { Desc::FsFolder(p, _, _) | Desc::FsAccount(p, _) | Desc::FsDevice(p, _) | Desc::FsFile(p, _) => Some(p.clone()), _ => None };
+        if let (true, Some(path)) = (rng.chance(1, 20), fs_path) {
+            let hidden = path.with_extension("hidden");
+            if std::fs::rename(&path, &hidden).is_ok() {
+                let r = do_apply(&mut case.logs[o], &mut rng, 2).await;
+                let created = path.exists();
+                if created { let _ = std::fs::remove_file(&path); }
+                let _ = std::fs::rename(&hidden, &path);
+                rep.count(if r.is_ok() { "op:failed-apply:did-not-fail" } else { "op:failed-apply:error" });
+                if r.is_ok() || created {
+                    // the call wrote somewhere else: forget the in-memory log and read the file again
+                    if let Ok(mut fresh) = open(&case.descs[o], &case.client).await { let _ = with_log!(&mut fresh, l => l.load_tree().await.map_err(|e| e.to_string())); case.logs[o] = fresh; }
+                } else {
+                    script.push(format!("failed apply o={o}"));
+                    refused_unchanged(&case, rep, backend, &script, "failed-apply", &snap).await;
+                    script.pop();
+                }
+            }
+        }
         if kind < 14 {
             // typed apply: time is stamped by the log; read it back
             let n = rng.range(1, 3) as usize;
